@@ -153,6 +153,19 @@ def gen_program(rng, specs, alias, n_ops, structural, ret_kind):
       continue
     prog.append(op)
   # return expression
+  if ret_kind == 'wrap':
+    # return an object that existed before the call inside a NEW object, after detaching it from the arguments and updating it
+    mps0 = [(ai, p) for ai, a in enumerate(build_args(specs, alias)) for p, _ in modules_by_path(a) if len(p) >= 1]
+    if mps0:
+      ai, p = rng.choice(mps0)
+      det = ('del_attr', ai, p[:-1], p[-1])
+      try:
+        apply_op(det, args, x)
+        prog.append(det)
+      except Exception:  # noqa: BLE001 - already gone / not applicable: the object is returned anyway
+        pass
+      return prog, ('wrap', ai, p)
+    ret_kind = 'scalar'
   if ret_kind == 'node':
     mps = [(ai, p) for ai, a in enumerate(args) for p, _ in modules_by_path(a)]
     ret = ('node',) + rng.choice(mps)
@@ -208,8 +221,21 @@ def run_program(prog, ret, args, x):
   """The function under test: plain Python over the real objects. Returns (scalar, node-or-None)."""
   import jax.numpy as jnp
   from vf.gen import nnx_graph as G
+  captured = None
+  if ret[0] == 'wrap':
+    try:
+      captured = get_path(args[ret[1]], ret[2])
+    except (AttributeError, KeyError, IndexError, TypeError):
+      captured = None
   for op in prog:
     apply_op(op, args, x)
+  if ret[0] == 'wrap' and captured is not None:
+    for _, v in G.ref_leaves(captured):
+      if G._is_var(v):
+        v.value = v.value + 1.0 + x
+    box = G.classes()['B']()
+    box.child = captured
+    return box
   total = jnp.sum(x)
   w = 1.0
   for a in args:
@@ -217,7 +243,7 @@ def run_program(prog, ret, args, x):
       if G._is_var(v):
         total = total + jnp.sum(v.value) * w
         w += 0.5
-  if ret[0] == 'scalar':
+  if ret[0] in ('scalar', 'wrap'):
     return total
   node = get_path(args[ret[1]], ret[2])
   if ret[0] == 'node':
@@ -332,6 +358,29 @@ def check_same_outcome(ctx, tag, args_e, args_t, corr, out_e, out_t, desc, check
   if se is not None:
     ok = st is not None and np.allclose(np.asarray(se), np.asarray(st), **core.TOL_SAME_PROGRAM)
   ctx.check(ok, 'return:value:' + tag, lambda: dict(case=desc, eager=repr(se), transformed=repr(st)))
+  if ne is not None and nt is not None and check_identity and not tag.startswith('cached_partial'):
+    # every ORIGINAL object reachable from the returned value is the caller's own object on the transformed side as well
+    ie, it = G.identities(ne), G.identities(nt)
+    bad = [p for p, i in ie.items() if i in corr and it.get(p) != corr[i]]
+    ctx.check(not bad, 'return:original_object_returned_as_copy:' + tag, lambda: dict(case=desc, paths=bad[:4]))
+  # the caller's original objects (also those detached from the arguments during the call) carry the same values on both sides
+  # (an object that the function detached and that is reachable neither from an argument nor from the returned value cannot be
+  # tracked by any transform; only objects still reachable on the eager side are compared)
+  reach = set()
+  for a_e in args_e:
+    reach.update(G.identities(a_e).values())
+  if ne is not None:
+    reach.update(G.identities(ne).values())
+  for (objs_e, objs_t) in corr.get('__keepalive__', []):
+    ok = True
+    for oe, ot in zip(objs_e, objs_t):
+      if G._is_var(oe) and G._is_var(ot) and id(oe) in reach:
+        ok = ok and np.allclose(np.asarray(oe.value), np.asarray(ot.value), **core.TOL_SAME_PROGRAM)
+    if not ok:
+      ctx.check(False, 'state:caller_original_object_stale:' + tag, lambda: dict(case=desc))
+      break
+  else:
+    ctx.check(True, 'state:originals')
   if ne is not None:
     # the returned node is the caller's own object when it is one of the argument objects
     where_e = [(ai, p) for ai, a in enumerate(args_e) for p, i in G.identities(a).items() if i == id(ne)]
@@ -371,7 +420,7 @@ def case_jit_like(ctx, rng, kind, desc_base):
   import jax.numpy as jnp
   specs, alias = gen_specs(rng)
   structural = rng.random() < 0.7
-  ret_kind = rng.choice(['scalar', 'scalar', 'node', 'both'])
+  ret_kind = rng.choice(['scalar', 'scalar', 'node', 'both', 'wrap'] if structural else ['scalar', 'scalar', 'node', 'both'])
   prog, ret = gen_program(rng, specs, alias, rng.randint(1, 6), structural, ret_kind)
   n_calls = rng.choice([1, 1, 2, 3]) if kind != 'remat' else 1
   desc = dict(desc_base, alias=alias, program=prog, ret=ret, calls=n_calls, structural=structural)
